@@ -14,7 +14,7 @@ Games ==
       [] Family = "hist" -> HistFamily
       [] Family = "edit" -> EditFamily
       [] Family = "perm" -> PermFamily
-      [] Family = "tiny" -> DescribeAll("tiny", Pick(K, TinyGames) \cup Pick(K, TinyChains))
+      [] Family = "tiny" -> DescribeAll("tiny", Pick(K, TinyGames) \cup Pick(K, TinyChains) \cup TinySlow)
       [] Family = "nonabs" -> DescribeAll("nonabs", Pick(K, NonAbsGames))
       [] Family = "diag" -> DescribeAll("diag", Pick(K, DiagGames))
       [] Family = "samerow" -> DescribeAll("samerow", Pick(K, SameRowGames))
